@@ -188,7 +188,7 @@ class Engine:
                 raise StaleContract("no function %s in %s" % (fc.name, fc.module.path))
         loops = frontend.loops_in(node)
         for k in fc.loops:
-            if k > len(loops):
+            if isinstance(k, int) and k > len(loops):
                 raise StaleContract("%s has %d loops, contract names loop#%d" % (fc.qualname, len(loops), k))
         uncovered = [k for k in range(1, len(loops) + 1) if k not in fc.loops]
         obligations = []
@@ -965,6 +965,8 @@ class Path:
 
     # ------------------------------------------------------------------ loops
     def loop_index(self, node):
+        if id(node) in getattr(self, "synthetic_loops", {}):
+            return self.synthetic_loops[id(node)]
         for k, l in enumerate(self.loops):
             if l is node:
                 return k + 1
@@ -1312,7 +1314,7 @@ class Path:
     def assert_invariants(self, lc, k, what, line, extra=None):
         sv = self.env.spec_view(old=self.entry, extra=extra)
         for e, l in self.loop_invs(lc):
-            self.oblige("%s/loop#%d:%s:%s" % (self.fc.qualname, k, what, l), self.ev_spec(e, sv).t, "loop", line)
+            self.oblige("%s/loop#%s:%s:%s" % (self.fc.qualname, k, what, l), self.ev_spec(e, sv).t, "loop", line)
 
     def assume_invariants(self, lc, extra=None):
         sv = self.env.spec_view(old=self.entry, extra=extra)
@@ -1364,19 +1366,19 @@ class Path:
             self.assume_use(e, self.env.spec_view(old=self.entry, extra=extra))
         for h in lc.hints:
             hv = self.ev_spec(h, self.env.spec_view(old=self.entry, extra=extra))
-            self.oblige("%s/loop#%d:hint:%s" % (self.fc.qualname, k, h), hv.t, "hint", s.lineno)
+            self.oblige("%s/loop#%s:hint:%s" % (self.fc.qualname, k, h), hv.t, "hint", s.lineno)
             self.assume(hv)
         self.assert_invariants(lc, k, "preserve", s.lineno, extra)
         if d0 is not None:
             d1 = self.ev_spec_val(lc.decreases_expr, self.env.spec_view(old=self.entry, extra=extra)).t
-            self.oblige("%s/loop#%d:decreases" % (self.fc.qualname, k), z3.And(d0 >= 0, d1 < d0), "loop", s.lineno)
+            self.oblige("%s/loop#%s:decreases" % (self.fc.qualname, k), z3.And(d0 >= 0, d1 < d0), "loop", s.lineno)
         raise PathEnd()
 
     def exec_for(self, s):
         k, lc = self.loop_contract(s)
         seq = self.iter_seq(s.iter, self.env, s.lineno)
         self.check_stability(seq, s.body, s.lineno, "for")
-        iname, sname = "_i%d" % k, "_seq%d" % k
+        iname, sname = "_i%s" % k, "_seq%s" % k
         self.env.locals[sname] = seq
         self.env.locals[iname] = V(z3.IntVal(0), INT)
         for e in lc.uses_init:
@@ -2074,6 +2076,29 @@ class Path:
         self.lambdas[id(n)] = n
         return V(n, FunS([], ANY, "lambda"))
 
+    def comp_ordinal(self, node):
+        comps = [x for x in ast.walk(self.node) if isinstance(x, ast.ListComp)]
+        comps.sort(key=lambda x: (x.lineno, x.col_offset))
+        return 1 + next(i for i, x in enumerate(comps) if x is node)
+
+    def comprehension_as_loop(self, n, g, kc, lc):
+        """a list comprehension whose element expression has effects, executed as the loop it abbreviates (contract: fc.comprehension(k))"""
+        if g.ifs:
+            raise Unsupported("filtered comprehension with effects")
+        acc = "_acc%d" % kc
+        self.env.locals[acc] = ops.seq_empty(SeqS(lc.elem_sort))
+        body = ast.Expr(ast.Call(ast.Attribute(ast.Name(acc, ast.Load()), "append", ast.Load()), [n.elt], []))
+        loop = ast.For(target=g.target, iter=g.iter, body=[body], orelse=[], lineno=getattr(n, "lineno", 0), col_offset=0)
+        ast.fix_missing_locations(loop)
+        for x in ast.walk(loop):
+            if not hasattr(x, "lineno"):
+                x.lineno = getattr(n, "lineno", 0)
+        if not hasattr(self, "synthetic_loops"):
+            self.synthetic_loops = {}
+        self.synthetic_loops[id(loop)] = "c%d" % kc
+        self.exec_for(loop)
+        return self.env.locals[acc]
+
     def fresh_objects(self, clsname, cfc, call, S, env):
         """[Cls(args) for _ in S] with a trusted, effect-free constructor contract: len(S) pairwise distinct freshly allocated objects, each
         satisfying the constructor's postconditions (arguments must not depend on the loop variable)"""
@@ -2197,6 +2222,11 @@ class Path:
         S = self.iter_seq(g.iter, env, getattr(n, "lineno", 0))
         self._last_iter_lazy = S.lazy
         elt = n.elt
+        if not env.spec and isinstance(n, ast.ListComp):
+            kc = self.comp_ordinal(n)
+            lc = self.fc.loops.get("c%d" % kc)
+            if lc is not None:
+                return self.comprehension_as_loop(n, g, kc, lc)
         if not env.spec and not g.ifs and isinstance(elt, ast.Call) and isinstance(elt.func, ast.Name) and elt.func.id in self.unit.classes \
                 and elt.func.id not in env.locals:
             cfc = self.eng.find_contract(elt.func.id, "__init__")
